@@ -109,11 +109,15 @@ def C03(ctx):
     R.c08_r1(ctx, f, rid="C03.R1")
     R.c03_r2(ctx, f)
     ct = T.c15_t1(ctx, f)
-    G.prepare(ctx, f, {"blank", "format"})
+    G.prepare(ctx, f, {"blank", "format", "masks", "place"})
     d_blank = G.c03_r3(ctx, f)
     T.c03_t3(soft_if(ctx, d_blank, "C03.R3"), f)
     E.c15_r1(soft_if(ctx, d_blank, "C03.R3"), f, ct)
     G.c04_r3(ctx, f, rid="C03.R4", only_outside=True)
+    # "independent of payload and mask" / "nothing outside the square": the two writers that run on the drawn symbol
+    # (codeword placement, mask sweeps) leave every function module and everything beyond size x size alone
+    G.c08_r4(ctx, f, rid="C03.R5")
+    G.c01_r5(ctx, f, rid="C03.R6")
     return dict(
         level="other",
         explanation='The blank symbol is partially evaluated from MIR for all 40 versions and compared module by module (label and fixed value) with an ISO region map: finders, separators, timing, alignment at the Annex E centres, dark module, version information, reserved format strip, light data elsewhere, nothing outside size x size. The only writer of function modules after placement (the format writer) is shown to touch format positions only for every (version, level, mask); every other module write is edge-dominated by module_type()==Data on the same place. Side = 17+4v and its inverse, Annex E rows and the backing array size are table obligations.',
@@ -237,14 +241,23 @@ def C10(ctx):
     # met by the partial evaluator is reported by the rule that met it), and they produce what the next stage expects
     G.prepare(ctx, f, {"blank", "format", "masks", "place"})
     G.c06_r2(ctx, f)
-    G.c02_r4(ctx, f)
-    G.c03_r3(ctx, f)
-    G.c01_r5(ctx, f)
-    G.c04_r3(ctx, f)
-    G.c08_r4(ctx, f)
+    d_il = G.c02_r4(ctx, f)
+    d_blank = G.c03_r3(ctx, f)
+    d_place = G.c01_r5(ctx, f)
+    d_fmt = G.c04_r3(ctx, f)
+    d_masks = G.c08_r4(ctx, f)
     witness.rule(ctx, "C10.W1", "build returns Result<QRCode, QRCodeError>; the error has exactly two variants",
                  ["w_c05_error_is_exhaustive", "w_c10_build_type"])
-    x("c10_r1", ctx, f)
+    ev = {}
+    if d_blank and d_fmt:
+        ev["default::"] = "C03.R3/C04.R3"
+    if d_masks:
+        ev["datamasking::"] = "C08.R4"
+    if d_place:
+        ev["placement::place_on_matrix_data"] = "C01.R5"
+    if d_il:
+        ev["polynomials::structure"] = "C02.R4"
+    x("c10_r1", ctx, f, ev)
     E.panic_inventory(ctx, f, ["qr::QRBuilder::build"], "build")
     return dict(
         level="other",
